@@ -56,9 +56,9 @@ let kind_of = function
   | "TreeSet" | "TreeMap" -> Crew (KTree, false, None)
   | "DataTable" -> Crew (KTable, false, None)
   | "vec" -> Arr (0, true) | "vecic" -> Arr (4, true)
-  | "set" -> Crew (KTree, false, Some WSet) | "mset" -> Crew (KTree, true, Some WSet)
-  | "map" -> Crew (KTree, false, Some WMap) | "mmap" -> Crew (KTree, true, Some WMap)
-  | "uset" | "useto" -> Crew (KHash, false, Some WUSet) | "umap" -> Crew (KHash, false, Some WUMap)
+  | "set" | "setdir" -> Crew (KTree, false, Some WSet) | "mset" -> Crew (KTree, true, Some WSet)
+  | "map" | "mapdir" -> Crew (KTree, false, Some WMap) | "mmap" -> Crew (KTree, true, Some WMap)
+  | "uset" | "useto" | "usetseed" -> Crew (KHash, false, Some WUSet) | "umap" -> Crew (KHash, false, Some WUMap)
   | "ummap" -> Crew (KMulti, true, Some WUMulti)
   | _ -> failwith "kind"
 
